@@ -591,32 +591,49 @@ Definition sects_content (s : sects) : list Z * list nat * option nat * list Z :
   (ss_orders s, ss_by_order s, ss_addrtab s, ss_entries s).
 
 (* ------------------------------------------------------------------------------------------------------------------ *)
-(* BaseBuilder node creation: label nodes, section nodes, instruction nodes (builder.cpp)                                *)
+(* BaseBuilder node creation (builder.cpp): label / section / instruction / align / embed / comment / embed-label nodes,  *)
+(* embed_const_pool (composite), the cursor (add_node inserts behind it; set_cursor moves it)                             *)
 (* ------------------------------------------------------------------------------------------------------------------ *)
-Inductive bnode := NInst | NLabel (li : nat).
+Inductive bnode := NSection (sid : nat) | NInst | NLabel (li : nat) | NAlign | NEmbed | NComment | NEmbedLabel (li : nat).
 
 Record bld := mkbld {
   b_lnodes : list bool; b_lcap : Z;          (* ArenaVector<LabelNode*> _label_nodes: true = a node exists *)
   b_snodes : list bool; b_scap : Z;          (* ArenaVector<SectionNode*> _section_nodes *)
   b_active : list nat;                       (* labels whose node is linked into the node list (bound) *)
-  b_secs : list (nat * list bnode);          (* the node list, grouped by section node in list order *)
-  b_cur : nat }.                             (* section the cursor is in *)
+  b_nodes : list bnode;                      (* the node list *)
+  b_cursor : nat }.                          (* index of the cursor node *)
 
-(* the state BaseBuilder::on_attach leaves: section node 0 exists and is active, capacity 2 *)
-Definition bld_init : bld := mkbld [] 0 [true] 2 [] [(0%nat, [])] 0.
+(* the state BaseBuilder::on_attach leaves: section node 0 exists and is the only node, capacity 2 *)
+Definition bld_init : bld := mkbld [] 0 [true] 2 [] [NSection 0] 0.
 
 Definition bools_vec (l : list bool) (cap : Z) : vec := mkvec (map (fun _ => 0) l) cap.
-
-Fixpoint append_to (sid : nat) (n : bnode) (secs : list (nat * list bnode)) : list (nat * list bnode) :=
-  match secs with
-  | [] => []
-  | (s, ns) :: t => if (s =? sid)%nat then (s, ns ++ [n]) :: t else (s, ns) :: append_to sid n t
-  end.
-
 Definition set_nth_true (i : nat) (l : list bool) : list bool := upd_nth i (fun _ => true) l.
 Definition pad_to (n : nat) (l : list bool) : list bool := l ++ repeat false (n - length l).
 
-Inductive bop := BNewLabel | BBind (li : nat) | BSection (sid : nat) | BInst.
+Definition is_section (n : bnode) : bool := match n with NSection _ => true | _ => false end.
+Definition is_section_of (sid : nat) (n : bnode) : bool := match n with NSection s => (s =? sid)%nat | _ => false end.
+
+(* index of the first node satisfying f *)
+Fixpoint index_of (f : bnode -> bool) (l : list bnode) : nat :=
+  match l with
+  | [] => 0
+  | x :: t => if f x then 0 else S (index_of f t)
+  end.
+
+(* BaseBuilder::section on an active section: the cursor goes to the last node of that section, i.e. just before the next
+   section node (or to the last node) *)
+Definition section_end (sid : nat) (l : list bnode) : nat :=
+  let p := index_of (is_section_of sid) l in
+  p + index_of is_section (skipn (S p) l).
+
+(* BaseBuilder::add_node: link behind the cursor, the new node becomes the cursor *)
+Definition add_node (n : bnode) (b : bld) : bld :=
+  mkbld (b_lnodes b) (b_lcap b) (b_snodes b) (b_scap b) (b_active b) (insert_at (S (b_cursor b)) n (b_nodes b)) (S (b_cursor b)).
+
+Inductive bop :=
+| BNewLabel | BBind (li : nat) | BSection (sid : nat)
+| BInst | BAlign | BEmbed | BEmbedLabel (li : nat) | BComment
+| BCursor (i : nat) | BConstPool (li : nat).
 
 (* BaseBuilder::new_label: CodeHolder::new_label_id, then Builder_new_label_internal (reserve, node, append); when the second
    part fails the holder keeps an orphan label (no node refers to it) and an invalid Label is returned *)
@@ -630,39 +647,44 @@ Definition b_new_label (h : holder2) (b : bld) (k : nat) : result * holder2 * bl
       let '(r2, v2, k2) := vec_reserve_additional 8 (bools_vec (b_lnodes b) (b_lcap b)) (Z.of_nat grow_by) k1 in
       match r2 with
       | Ok =>
-          let b1 := mkbld (b_lnodes b) (v_cap v2) (b_snodes b) (b_scap b) (b_active b) (b_secs b) (b_cur b) in
+          let b1 := mkbld (b_lnodes b) (v_cap v2) (b_snodes b) (b_scap b) (b_active b) (b_nodes b) (b_cursor b) in
           let '(ok3, k3) := request k2 in
-          if ok3 then (Ok, h1, mkbld (pad_to n (b_lnodes b1) ++ [true]) (b_lcap b1) (b_snodes b1) (b_scap b1) (b_active b1) (b_secs b1) (b_cur b1), k3)
+          if ok3 then (Ok, h1, mkbld (pad_to n (b_lnodes b1) ++ [true]) (b_lcap b1) (b_snodes b1) (b_scap b1) (b_active b1) (b_nodes b1) (b_cursor b1), k3)
           else (Oom, h1, b1, k3)
       | _ => (Oom, h1, b, k2)
       end
   | _ => (r, mkh2 base1 (h2_sects h), b, k1)
   end.
 
-(* BaseBuilder::bind = label_node_of (resize_grow, node on demand) + add_node *)
+(* BaseBuilder::label_node_of: resize_grow, node on demand *)
+Definition b_label_node (li : nat) (b : bld) (k : nat) : result * bld * nat :=
+  let '(r1, b1, k1) :=
+    if (li <? length (b_lnodes b))%nat then (Ok, b, k) else
+      let '(r, v, k') := (if b_lcap b <? Z.of_nat (li + 1) then vec_reserve_grow 8 (bools_vec (b_lnodes b) (b_lcap b)) (Z.of_nat (li + 1)) k
+                          else (Ok, bools_vec (b_lnodes b) (b_lcap b), k)) in
+      match r with
+      | Ok => (Ok, mkbld (pad_to (li + 1) (b_lnodes b)) (v_cap v) (b_snodes b) (b_scap b) (b_active b) (b_nodes b) (b_cursor b), k')
+      | _ => (Oom, b, k')
+      end in
+  match r1 with
+  | Ok =>
+      if nth li (b_lnodes b1) false then (Ok, b1, k1) else
+        let '(ok2, k') := request k1 in
+        if ok2 then (Ok, mkbld (set_nth_true li (b_lnodes b1)) (b_lcap b1) (b_snodes b1) (b_scap b1) (b_active b1) (b_nodes b1) (b_cursor b1), k')
+        else (Oom, b1, k')
+  | _ => (Oom, b1, k1)
+  end.
+
+Definition label_active (b : bld) (li : nat) : bool := existsb (Nat.eqb li) (b_active b).
+Definition activate (li : nat) (b : bld) : bld :=
+  let b1 := add_node (NLabel li) b in mkbld (b_lnodes b1) (b_lcap b1) (b_snodes b1) (b_scap b1) (li :: b_active b1) (b_nodes b1) (b_cursor b1).
+
+(* BaseBuilder::bind = label_node_of + add_node *)
 Definition b_bind (li : nat) (h : holder2) (b : bld) (k : nat) : result * bld * nat :=
   if (li <? length (ho_labels (h2_base h)))%nat then
-    let '(r1, b1, k1) :=
-      if (li <? length (b_lnodes b))%nat then (Ok, b, k) else
-        let '(r, v, k') := (if b_lcap b <? Z.of_nat (li + 1) then vec_reserve_grow 8 (bools_vec (b_lnodes b) (b_lcap b)) (Z.of_nat (li + 1)) k
-                            else (Ok, bools_vec (b_lnodes b) (b_lcap b), k)) in
-        match r with
-        | Ok => (Ok, mkbld (pad_to (li + 1) (b_lnodes b)) (v_cap v) (b_snodes b) (b_scap b) (b_active b) (b_secs b) (b_cur b), k')
-        | _ => (Oom, b, k')
-        end in
-    match r1 with
-    | Ok =>
-        let '(r2, b2, k2) :=
-          if nth li (b_lnodes b1) false then (Ok, b1, k1) else
-            let '(ok2, k') := request k1 in
-            if ok2 then (Ok, mkbld (set_nth_true li (b_lnodes b1)) (b_lcap b1) (b_snodes b1) (b_scap b1) (b_active b1) (b_secs b1) (b_cur b1), k')
-            else (Oom, b1, k') in
-        match r2 with
-        | Ok =>
-            if existsb (Nat.eqb li) (b_active b2) then (Invalid, b2, k2)
-            else (Ok, mkbld (b_lnodes b2) (b_lcap b2) (b_snodes b2) (b_scap b2) (li :: b_active b2) (append_to (b_cur b2) (NLabel li) (b_secs b2)) (b_cur b2), k2)
-        | _ => (Oom, b2, k2)
-        end
+    let '(r, b1, k1) := b_label_node li b k in
+    match r with
+    | Ok => if label_active b1 li then (Invalid, b1, k1) else (Ok, activate li b1, k1)
     | _ => (Oom, b1, k1)
     end
   else (Invalid, b, k).
@@ -675,38 +697,189 @@ Definition b_section (sid : nat) (h : holder2) (b : bld) (k : nat) : result * bl
         let '(r, v, k') := vec_reserve_grow 8 (bools_vec (b_snodes b) (b_scap b)) (Z.of_nat (sid + 1)) k in (r, v_cap v, k') in
     match r1 with
     | Ok =>
-        let b1 := mkbld (b_lnodes b) (b_lcap b) (b_snodes b) cap1 (b_active b) (b_secs b) (b_cur b) in
+        let b1 := mkbld (b_lnodes b) (b_lcap b) (b_snodes b) cap1 (b_active b) (b_nodes b) (b_cursor b) in
         let '(r2, b2, k2) :=
           if nth sid (b_snodes b1) false then (Ok, b1, k1) else
             let '(ok2, k') := request k1 in
-            if ok2 then (Ok, mkbld (b_lnodes b1) (b_lcap b1) (set_nth_true sid (pad_to (sid + 1) (b_snodes b1))) (b_scap b1) (b_active b1) (b_secs b1) (b_cur b1), k')
+            if ok2 then (Ok, mkbld (b_lnodes b1) (b_lcap b1) (set_nth_true sid (pad_to (sid + 1) (b_snodes b1))) (b_scap b1) (b_active b1) (b_nodes b1) (b_cursor b1), k')
             else (Oom, b1, k') in
         match r2 with
         | Ok =>
-            let secs := if existsb (fun p => (fst p =? sid)%nat) (b_secs b2) then b_secs b2 else b_secs b2 ++ [(sid, [])] in
-            (Ok, mkbld (b_lnodes b2) (b_lcap b2) (b_snodes b2) (b_scap b2) (b_active b2) secs sid, k2)
+            if existsb (is_section_of sid) (b_nodes b2)
+            then (Ok, mkbld (b_lnodes b2) (b_lcap b2) (b_snodes b2) (b_scap b2) (b_active b2) (b_nodes b2) (section_end sid (b_nodes b2)), k2)
+            else (Ok, mkbld (b_lnodes b2) (b_lcap b2) (b_snodes b2) (b_scap b2) (b_active b2) (b_nodes b2 ++ [NSection sid]) (length (b_nodes b2)), k2)
         | _ => (Oom, b2, k2)
         end
     | _ => (Oom, b, k1)
     end
   else (Invalid, b, k).
 
-Definition b_inst (b : bld) (k : nat) : result * bld * nat :=
-  let '(ok1, k1) := request k in
-  if ok1 then (Ok, mkbld (b_lnodes b) (b_lcap b) (b_snodes b) (b_scap b) (b_active b) (append_to (b_cur b) NInst (b_secs b)) (b_cur b), k1)
-  else (Oom, b, k1).
+(* a node that needs `reqs` requests before it is linked (instruction, align, embed, embed_label: 1; comment: string + node) *)
+Fixpoint b_simple_node (reqs : nat) (n : bnode) (b : bld) (k : nat) : result * bld * nat :=
+  match reqs with
+  | O => (Ok, add_node n b, k)
+  | S m => let '(ok1, k1) := request k in if ok1 then b_simple_node m n b k1 else (Oom, b, k1)
+  end.
 
-Definition builder_step (op : bop) (h : holder2) (b : bld) (k : nat) : result * holder2 * bld * nat :=
+(* BaseBuilder::embed_const_pool.  fixed = true (fixes/C15-embed-const-pool-atomic.patch): label node, then BOTH the align node
+   and the data node are allocated, and only then the three nodes are linked - one transaction.  fixed = false (the code before):
+   align node linked, label bound, and only then the data node allocated - an align node and the bound label stay behind when
+   that last allocation fails. *)
+Definition b_const_pool (fixed : bool) (li : nat) (h : holder2) (b : bld) (k : nat) : result * bld * nat :=
+  if (li <? length (ho_labels (h2_base h)))%nat then
+    let '(r, b1, k1) := b_label_node li b k in
+    match r with
+    | Ok =>
+        if label_active b1 li then (Invalid, b1, k1) else
+        if fixed then
+          let '(ok2, k2) := request k1 in
+          if ok2 then
+            let '(ok3, k3) := request k2 in
+            if ok3 then (Ok, add_node NEmbed (activate li (add_node NAlign b1)), k3) else (Oom, b1, k3)
+          else (Oom, b1, k2)
+        else
+          let '(r2, b2, k2) := b_simple_node 1 NAlign b1 k1 in
+          match r2 with
+          | Ok => b_simple_node 1 NEmbed (activate li b2) k2
+          | _ => (r2, b2, k2)
+          end
+    | _ => (Oom, b1, k1)
+    end
+  else (Invalid, b, k).
+
+Definition builder_step_gen (fixed : bool) (op : bop) (h : holder2) (b : bld) (k : nat) : result * holder2 * bld * nat :=
   match op with
   | BNewLabel => b_new_label h b k
   | BBind li => let '(r, b1, k1) := b_bind li h b k in (r, h, b1, k1)
   | BSection sid => let '(r, b1, k1) := b_section sid h b k in (r, h, b1, k1)
-  | BInst => let '(r, b1, k1) := b_inst b k in (r, h, b1, k1)
+  | BInst => let '(r, b1, k1) := b_simple_node 1 NInst b k in (r, h, b1, k1)
+  | BAlign => let '(r, b1, k1) := b_simple_node 1 NAlign b k in (r, h, b1, k1)
+  | BEmbed => let '(r, b1, k1) := b_simple_node 1 NEmbed b k in (r, h, b1, k1)
+  | BEmbedLabel li => let '(r, b1, k1) := b_simple_node 1 (NEmbedLabel li) b k in (r, h, b1, k1)
+  | BComment => let '(r, b1, k1) := b_simple_node 2 NComment b k in (r, h, b1, k1)
+  | BCursor i =>
+      (Ok, h, mkbld (b_lnodes b) (b_lcap b) (b_snodes b) (b_scap b) (b_active b) (b_nodes b) (i mod length (b_nodes b)), k)
+  | BConstPool li => let '(r, b1, k1) := b_const_pool fixed li h b k in (r, h, b1, k1)
   end.
 
-(* what serialization sees: the node list and the cursor; plus which labels / sections have a node (as a total map) *)
-Definition bld_list (b : bld) : list (nat * list bnode) * nat * list nat := (b_secs b, b_cur b, b_active b).
+Definition builder_step := builder_step_gen true.
+
+(* what serialization sees: the node list, the cursor, the bound labels *)
+Definition bld_list (b : bld) : list bnode * nat * list nat := (b_nodes b, b_cursor b, b_active b).
+
+(* ------------------------------------------------------------------------------------------------------------------ *)
+(* Register allocator home slots: RAStackAllocator::new_slot, BaseRAPass::get_or_create_stack_slot / _create_stack_slot, *)
+(* work_reg_as_mem (which cannot report a failure), and the null test of the rewrite step (f186c27)                       *)
+(* ------------------------------------------------------------------------------------------------------------------ *)
+Record rastack := mkras {
+  ra_slots : list nat;        (* _slots: the work register each slot belongs to, in creation order *)
+  ra_cap : Z;
+  ra_home : list bool;        (* per work register: _stack_slot != nullptr *)
+  ra_refs : list nat }.       (* work registers referenced by a "register home" memory operand *)
+
+Definition ras_init (nregs : nat) : rastack := mkras [] 0 (repeat false nregs) [].
+Definition has_home (s : rastack) (w : nat) : bool := nth w (ra_home s) false.
+
+(* RAStackAllocator::new_slot + _create_stack_slot: reserve, allocate, append; nullptr leaves everything but the capacity *)
+Definition ra_new_slot (w : nat) (s : rastack) (k : nat) : result * rastack * nat :=
+  let '(r, v, k1) := vec_reserve_one 8 (mkvec (map Z.of_nat (ra_slots s)) (ra_cap s)) k in
+  match r with
+  | Ok =>
+      let s1 := mkras (ra_slots s) (v_cap v) (ra_home s) (ra_refs s) in
+      let '(b, k2) := request k1 in
+      if b then (Ok, mkras (ra_slots s1 ++ [w]) (ra_cap s1) (upd_nth w (fun _ => true) (ra_home s1)) (ra_refs s1), k2)
+      else (Oom, s1, k2)
+  | _ => (Oom, s, k1)
+  end.
+
+Inductive raop := RGet (w : nat) | RAsMem (w : nat).
+
+Definition ra_step (op : raop) (s : rastack) (k : nat) : result * rastack * nat :=
+  match op with
+  | RGet w => if has_home s w then (Ok, s, k) else ra_new_slot w s k              (* call sites that test the result *)
+  | RAsMem w =>                                                                  (* work_reg_as_mem: the result is dropped *)
+      let '(_, s1, k1) := (if has_home s w then (Ok, s, k) else ra_new_slot w s k) in
+      (Ok, mkras (ra_slots s1) (ra_cap s1) (ra_home s1) (w :: ra_refs s1), k1)
+  end.
+
+Fixpoint ra_run (ops : list raop) (s : rastack) (k : nat) : list result * rastack * nat :=
+  match ops with
+  | [] => ([], s, k)
+  | op :: t => let '(r, s1, k1) := ra_step op s k in let '(rs, s2, k2) := ra_run t s1 k1 in (r :: rs, s2, k2)
+  end.
+
+(* the rewrite step replaces every register-home operand by [sp + slot offset]; with f186c27 a missing slot is an error *)
+Definition ra_rewrite (s : rastack) : result := if forallb (has_home s) (ra_refs s) then Ok else Oom.
 
 End WithOracle.
+
+(* ------------------------------------------------------------------------------------------------------------------ *)
+(* VirtMem mappings and JitAllocator block creation: two oracles (VM requests = mmap, heap requests = malloc)            *)
+(*   virtmem.cpp      alloc / release, alloc_dual_mapping_using_file (RX view, then RW view; roll-back of the first)      *)
+(*   jitallocator.cpp JitAllocator_new_block (views, then the block record; roll-back of the views), deleteBlock          *)
+(* ------------------------------------------------------------------------------------------------------------------ *)
+Section VmModel.
+Variable okv : nat -> bool.      (* does the k-th mmap succeed *)
+Variable okh : nat -> bool.      (* does the k-th malloc succeed *)
+
+Record vms := mkvms {
+  vs_views : list nat;                    (* live views (fresh ids) *)
+  vs_next : nat;
+  vs_heap : nat;                          (* live block records *)
+  vs_handles : list (option (list nat))   (* what each allocating script operation returned *)
+}.
+Definition vms_init : vms := mkvms [] 0 0 [].
+
+Inductive vmop := VMap | VDual | VRel (i : nat) | VBlock (dual : bool) | VDel (i : nat).
+
+Definition remove_ids (ids l : list nat) : list nat := filter (fun x => negb (existsb (Nat.eqb x) ids)) l.
+
+(* map_memory: one request *)
+Definition vm_map (s : vms) (kv : nat) : option nat * vms * nat :=
+  if okv kv then (Some (vs_next s), mkvms (vs_views s ++ [vs_next s]) (S (vs_next s)) (vs_heap s) (vs_handles s), S kv)
+  else (None, s, S kv).
+
+(* alloc_dual_mapping_using_file: two views of one anonymous file; when the second fails the first is unmapped *)
+Definition vm_dual (s : vms) (kv : nat) : option (list nat) * vms * nat :=
+  let '(a, s1, k1) := vm_map s kv in
+  match a with
+  | None => (None, s1, k1)
+  | Some ia =>
+      let '(b, s2, k2) := vm_map s1 k1 in
+      match b with
+      | Some ib => (Some [ia; ib], s2, k2)
+      | None => (None, mkvms (remove_ids [ia] (vs_views s2)) (vs_next s2) (vs_heap s2) (vs_handles s2), k2)
+      end
+  end.
+
+Definition push_handle (h : option (list nat)) (s : vms) : vms := mkvms (vs_views s) (vs_next s) (vs_heap s) (vs_handles s ++ [h]).
+
+Definition vm_step (op : vmop) (s : vms) (kv kh : nat) : result * vms * nat * nat :=
+  match op with
+  | VMap =>
+      let '(a, s1, k1) := vm_map s kv in
+      match a with Some i => (Ok, push_handle (Some [i]) s1, k1, kh) | None => (Oom, push_handle None s1, k1, kh) end
+  | VDual =>
+      let '(a, s1, k1) := vm_dual s kv in
+      match a with Some ids => (Ok, push_handle (Some ids) s1, k1, kh) | None => (Oom, push_handle None s1, k1, kh) end
+  | VBlock dual =>
+      (* JitAllocator_new_block: the view(s) first, then malloc of the block record; a failed malloc releases the views *)
+      let '(a, s1, k1) := if dual then vm_dual s kv else (let '(x, s', k') := vm_map s kv in (match x with Some i => Some [i] | None => None end, s', k')) in
+      match a with
+      | None => (Oom, push_handle None s1, k1, kh)
+      | Some ids =>
+          if okh kh then (Ok, push_handle (Some ids) (mkvms (vs_views s1) (vs_next s1) (S (vs_heap s1)) (vs_handles s1)), k1, S kh)
+          else (Oom, push_handle None (mkvms (remove_ids ids (vs_views s1)) (vs_next s1) (vs_heap s1) (vs_handles s1)), k1, S kh)
+      end
+  | VRel i | VDel i =>
+      match nth i (vs_handles s) None with
+      | Some ids =>
+          (Ok, mkvms (remove_ids ids (vs_views s)) (vs_next s) (match op with VDel _ => pred (vs_heap s) | _ => vs_heap s end)
+                     (upd_nth i (fun _ => None) (vs_handles s)), kv, kh)
+      | None => (Invalid, s, kv, kh)
+      end
+  end.
+
+End VmModel.
 
 Definition all_ok : nat -> bool := fun _ => true.
